@@ -133,6 +133,16 @@ def run(ctx):
                 part.violation("C20:raised:" + algebra.describe(h, BASIS, VALUES), {"error": repr(res)})
                 return
             check_state(part, db, res, algebra.describe(h, BASIS, VALUES), algebra.expr(h, BASIS, VALUES))
+            # the reciprocal of every state (number on the left): pure reciprocals with several factors
+            try:
+                rec = 1.0 / res
+            except Exception as e:
+                part.violation("C20:raised:1.0 / (%s)" % algebra.describe(h, BASIS, VALUES), {"error": repr(e)})
+            else:
+                check_state(part, db, rec, "1.0 / (%s)" % algebra.describe(h, BASIS, VALUES), "(1.0 / %s)" % algebra.expr(h, BASIS, VALUES))
+                part.count("reciprocal_states")
+                if sum(1 for _c, _u, e in algebra.key_of(rec.GetQuantity()) if e < 0) >= 2 and not any(e > 0 for _c, _u, e in algebra.key_of(rec.GetQuantity())):
+                    part.add("nontrivial", ("reciprocal", algebra.key_of(rec.GetQuantity())))
             k = algebra.key_of(res.GetQuantity())
             if sum(1 for _c, _u, e in k if e < 0) >= 2:
                 part.add("nontrivial", k)
@@ -152,7 +162,7 @@ def run(ctx):
     ctx.transitions = transitions + part.counters.get("simple", 0)
     ctx.traces = ctx.transitions
     ctx.rule = (
-        "BFS over products/quotients of %d atomic (category, unit) atoms to depth %d, every transition's result parsed back; plus every (unit, category) "
+        "BFS over products/quotients of %d atomic (category, unit) atoms to depth %d, every transition's result and its reciprocal (1.0 / state) parsed back; plus every (unit, category) "
         "of the table as a simple quantity; non-trivial = distinct composing maps with at least two denominator factors; outcomes = distinct unit strings"
         % (len(BASIS), depth)
     )
